@@ -55,8 +55,12 @@ Asked(rec) == IF rec.kind = "split" THEN UNION {DOMAIN Splits(rec)[k] : k \in 1.
               ELSE IF rec.kind \in {"send", "burn"} THEN {rec.req.r} ELSE {}
 Subject(rec) == {o \in NonCardinal(rec) : InvEntry(rec, o).insc = 0 /\ \E r \in Asked(rec) : Get(ToBal(InvEntry(rec, o).runes), r) > 0}
 
-Got(rec) == [i \in 1..Len(rec.after.outs) |-> ToIdBal(rec.after.outs[i])]
-Burned(rec) == ToIdBal(rec.after.burned)
+\* a dry run broadcasts nothing: what each output of the returned transaction would receive is computed with the
+\* rune protocol (RuneRules, itself validated against the real index by C08-C11 and by the mined operations here)
+ObsEdicts(rec) == [i \in 1..Len(rec.tx.edicts) |-> [id |-> IdOf(rec.tx.edicts[i][1]), amount |-> rec.tx.edicts[i][2], output |-> rec.tx.edicts[i][3]]]
+Eff(rec) == Effect(BalOf(rec), {IdOf(r) : r \in DOMAIN idr}, TxIns(rec), rec.tx.outs, rec.tx.art = "stone", ObsEdicts(rec), rec.tx.pointer)
+Got(rec) == IF rec.dry THEN Eff(rec).allocated ELSE [i \in 1..Len(rec.after.outs) |-> ToIdBal(rec.after.outs[i])]
+Burned(rec) == IF rec.dry THEN Eff(rec).burnedTx ELSE ToIdBal(rec.after.burned)
 
 \* ---------------------------------------------------------------- C22
 C22(rec) ==
@@ -89,7 +93,6 @@ C23(rec) ==
        /\ Chk("C23.ownInputs", \A i \in 1..Len(rec.tx.ins) : rec.tx.ins[i].wallet, info)
 
 \* ---------------------------------------------------------------- model conformance
-ObsEdicts(rec) == [i \in 1..Len(rec.tx.edicts) |-> [id |-> IdOf(rec.tx.edicts[i][1]), amount |-> rec.tx.edicts[i][2], output |-> rec.tx.edicts[i][3]]]
 Built(rec) ==
   CASE rec.kind = "send" -> SendOrBurn(Inventory(rec), IdOf, rec.req.r, rec.req.amt, FALSE, TRUE)
     [] rec.kind = "burn" -> SendOrBurn(Inventory(rec), IdOf, rec.req.r, rec.req.amt, TRUE, TRUE)
@@ -100,13 +103,12 @@ Drift(rec) ==
        /\ Chk("drift.outcome", m.ok = rec.ok /\ (~m.ok => m.err = rec.err), <<rec.kind, rec.req, "model", m.ok, m.err, "impl", rec.ok, rec.err>>)
        /\ (m.ok /\ rec.ok /\ rec.hasTx) =>
             LET runicIns == SelectSeq(TxIns(rec), LAMBDA o : o \in NonCardinal(rec))
-                eff == Effect(BalOf(rec), {IdOf(r) : r \in DOMAIN idr}, TxIns(rec), rec.tx.outs, rec.tx.art = "stone", ObsEdicts(rec),
-                              rec.tx.pointer)
+                eff == Eff(rec)
             IN /\ Chk("drift.inputs", runicIns = m.ins, <<rec.kind, rec.req, "model", m.ins, "impl", TxIns(rec)>>)
                /\ Chk("drift.outputs", rec.tx.outs = m.outs \/ rec.tx.outs = m.outs \o <<"wallet">>, <<"model", m.outs, "impl", rec.tx.outs>>)
                /\ Chk("drift.edicts", ObsEdicts(rec) = SortEdicts(m.edicts) /\ (rec.tx.art = "stone") = m.stone,
                       <<"model", m.edicts, "impl", rec.tx.edicts>>)
-               /\ Chk("drift.runeRules", eff.allocated = Got(rec) /\ eff.burnedTx = Burned(rec),
+               /\ Chk("drift.runeRules", rec.dry \/ (eff.allocated = Got(rec) /\ eff.burnedTx = Burned(rec)),
                       <<"model", eff.allocated, eff.burnedTx, "index", rec.after>>)
 
 Init == l = 1 /\ idr = <<>>
